@@ -72,6 +72,10 @@ structure TypeO where
   rtype : Option Nat
   values : List String
   prot : Bool
+  /-- the Python CLASS of a leaf type object when it is not the library's own (`class Upper(ScalarType)` overriding
+      `serialize` / `parse`: the documented way to write a custom scalar; `EnumType` subclasses): its behaviour.
+      `none`: plain `ScalarType` / `EnumType`. Not tracked for composite types (a rebuilt composite type is plain, T7) -/
+  cls : Option Nat := none
   deriving DecidableEq, Repr, Inhabited
 
 structure DirO where
